@@ -123,7 +123,7 @@ impl Slave {
             | bit(self.cfg_fault, 0x04)
             | bit(self.diag_pending, 0x08)
             | bit(self.prm_fault, 0x40);
-        let b1 = bit(wp, 0x01) | 0x04 | if wp { 0 } else { self.prm_flags };
+        let b1 = bit(wp, 0x01) | 0x04 | if wp { 0 } else { self.prm_flags & 0x38 };
         let mut v = vec![
             b0,
             b1,
